@@ -189,7 +189,7 @@ CLAIMED = {
              "given assumed contracts of the libraries' own cursors. Not decided: the bolt and leveldb wrappers (they test byte "
              "slices against nil, which the model cannot tell from empty; their seek defects were found by inspection, shown by a "
              "differential demonstration and repaired), point reads/writes and the transaction wrappers of all four drivers, DeletePrefix of "
-             "bolt/leveldb/pebble, and the equality of whole histories across drivers. Badger's block-wise DeletePrefix is proved against the "
+             "bolt/leveldb/pebble, and the equality of whole histories across drivers. The block-wise DeletePrefix of badger and pebble and pebble's HasKey/Get are proved against the "
              "interface contract (on success no key with the prefix is left and every other key and value is unchanged; on failure nothing "
              "outside the prefix changed); that it is one atomic write is not (it is one transaction per block of 9999 keys).",
         ref="§5 C10",
